@@ -739,6 +739,9 @@ def grads_finite_violations(dist, desc, xs, cond=None):
 
 
 def leaf_dists(rng):
+    # a LARGE max_val first: tanh(20) rounds to exactly 1.0 in float64, so any unselected branch evaluated at the threshold sits on arctanh's pole
+    for m in (20.0, 25.0):
+        yield f"LeakyTanh({m})", B.LeakyTanh(m), fj.leaky_boundary_inputs(m, rng, 2) + [1.5, -1.5]
     for _ in range(6):
         m = rng.choice([0.5, 1.0, 3.0])
         yield f"LeakyTanh({m})", B.LeakyTanh(m), fj.leaky_boundary_inputs(m, rng, 2)
